@@ -217,6 +217,25 @@ def _replay(rec):
             bad.append("deepcopy() is not an equal tree")
         if any(id(e) in ids for e in cp.walk(include_self=True)):
             bad.append("deepcopy() shares elements with the original")
+        # ... and no attribute mapping either: editing the copy's attributes leaves the original as it was
+        orig_attrs = {id(e.attrs) for e in root.walk(include_self=True) if hasattr(e, "attrs")}
+        cp2 = root.deepcopy()
+        for e in cp2.walk(include_self=True):
+            if hasattr(e, "attrs"):
+                if id(e.attrs) in orig_attrs:
+                    bad.append("deepcopy() shares an attribute mapping with the original")
+                    break
+                e.attrs["data-copy"] = "1"
+                e.attrs.pop("class", None)
+        if (*project(root), str(root)) != before:
+            bad.append("editing the attributes of a deepcopy() altered the original")
+        for recurse in (False, True):
+            cps = root.strip(inplace=False, recurse=recurse)
+            for e in cps.walk(include_self=True):
+                if hasattr(e, "attrs"):
+                    e.attrs["data-copy"] = "2"
+            if (*project(root), str(root)) != before:
+                bad.append(f"editing the attributes of strip(inplace=False, recurse={recurse})'s result altered the original")
         for recurse, key in ((True, "strip1"),):
             cp.strip(inplace=True, recurse=recurse)
             if str(cp) != "".join(tok_text(t) for t in rec[key]):
